@@ -277,27 +277,31 @@ def reference_times(timeline, drop, offset_s, band=0):
 def bounded(ctx, b):
     rng = random.Random(ctx.seed)
     gaps_alpha = [1, 4, 5, 6, 30]
+    nopt = 0
     for drop, dbl, sep_edm in itertools.product([True, False], repeat=3):
         for gaps in itertools.product(gaps_alpha, repeat=2):
             for offset in (0, 1, 3) + ((45,) if (drop, dbl, sep_edm, gaps) == (True, False, False, (30, 30)) else ()):
                 lines = program(rng, drop, dbl, sep_edm, list(gaps) + [30])
+                # reader options that do not concern pop-on timing leave it alone: the language label, roll-up simulation
+                nopt += 1
+                opts = [{}, {"lang": "fr-FR"}, {"simulate_roll_up": True}, {"lang": "de", "simulate_roll_up": True}][nopt % 4]
 
-                def one(lines=lines, drop=drop, dbl=dbl, offset=offset, sep_edm=sep_edm):
+                def one(lines=lines, drop=drop, dbl=dbl, offset=offset, sep_edm=sep_edm, opts=opts):
                     doc, timeline = encode(lines, drop, dbl)
                     ref = reference_times(timeline, drop, offset)
                     flashes = any(0 < e - s < 50000 for s, e in ref)
                     try:
-                        cs = _SHARED_READER.read(doc, offset=offset)
+                        cs = _SHARED_READER.read(doc, offset=offset, **opts)
                     except CaptionReadTimingError:
                         return flashes, {"raised_timing_error_but_no_caption_is_shorter_than_0.05s": [(float(s), float(e)) for s, e in ref]}
                     if flashes:
                         return False, {"flash_caption_returned": [(float(s), float(e)) for s, e in ref]}
-                    got = [(c_.start, c_.end) for c_ in cs.get_captions("en-US")]
+                    got = [(c_.start, c_.end) for c_ in cs.get_captions(opts.get("lang", "en-US"))]
                     ok = len(got) == len(ref) and all(abs(Fraction(g[0]) - r_[0]) <= 1 and abs(Fraction(g[1]) - r_[1]) <= 1
                                                       for g, r_ in zip(got, ref))
                     ok = ok and all(g[0] <= g[1] for g in got) and got == sorted(got)
-                    return ok, {"got": got, "expected": [(float(s), float(e)) for s, e in ref], "doc": doc[:500]}
-                b.guard((drop, dbl, sep_edm, gaps, offset), one, sample={"drop": drop, "doubled": dbl, "separate_edm": sep_edm, "gaps": gaps, "offset_s": offset,
+                    return ok, {"got": got, "expected": [(float(s), float(e)) for s, e in ref], "doc": doc[:500], "options": opts}
+                b.guard((drop, dbl, sep_edm, gaps, offset), one, sample={"drop": drop, "doubled": dbl, "separate_edm": sep_edm, "gaps": gaps, "offset_s": offset, "options": opts,
                                                                          "offset_beyond_caption_end": offset == 45})
     # a caption shown for a few frames only, the next one loaded right behind it on the same line: whether it is
     # a flash is decided AFTER a gap under five frames has been closed
@@ -308,19 +312,21 @@ def bounded(ctx, b):
                     [("EDM", True)] + [("NUL", False)] * gap + [("RCL", True), ("PAC", True), (t2, False), ("EOC", True)] + \
                     [("NUL", False)] * 30 + [("EDM", True)]
 
-            def quick(words=words, drop=drop, dbl=dbl):
+            lang = ["en-US", "fr-FR"][(shown + gap) % 2]
+
+            def quick(words=words, drop=drop, dbl=dbl, lang=lang):
                 doc, timeline = encode([(60, words)], drop, dbl)
                 ref = reference_times(timeline, drop, 0)
                 if reference_times(timeline, drop, 0, band=2) != ref:
                     return True, None       # a gap of exactly five frames: inside the tolerance band of the threshold
                 flashes = any(0 < e - s < 50000 for s, e in ref)
                 try:
-                    cs = _SHARED_READER.read(doc)
+                    cs = _SHARED_READER.read(doc, lang=lang)
                 except CaptionReadTimingError:
                     return flashes, {"raised_timing_error_but_no_caption_is_shorter_than_0.05s": [(float(s), float(e)) for s, e in ref], "doc": doc}
                 if flashes:
-                    return False, {"flash_caption_returned": [(float(s), float(e)) for s, e in ref]}
-                got = [(c_.start, c_.end) for c_ in cs.get_captions("en-US")]
+                    return False, {"flash_caption_returned": [(float(s), float(e)) for s, e in ref], "lang": lang}
+                got = [(c_.start, c_.end) for c_ in cs.get_captions(lang)]
                 ok = len(got) == len(ref) and all(abs(Fraction(g[0]) - r_[0]) <= 1 and abs(Fraction(g[1]) - r_[1]) <= 1 for g, r_ in zip(got, ref))
                 return ok, {"got": got, "expected": [(float(s), float(e)) for s, e in ref], "doc": doc}
             b.guard(("quick", drop, dbl, shown, gap, short), quick, sample={"frames_shown": shown + 1, "padding_before_next_caption": gap, "short_text": short, "drop": drop, "doubled": dbl})
